@@ -360,3 +360,103 @@ Proof.
   apply andb_true_iff in Hw as [Hw _]. apply andb_true_iff in Hw as [Hw _]. apply andb_true_iff in Hw as [Hel Hcw].
   unfold elem_w in Hel. apply andb_true_iff in Hel as [Hi _]. split; auto. eapply cells_w_ok; eauto.
 Qed.
+
+(* ---------------------------------------------------------------------------------------- *)
+(* THE FILE *)
+Lemma libs_loop libs : forall todo done xs st top,
+  libs = done ++ todo -> uniq_ci (map li_ident libs) = true -> uniq_x (map li_name libs) = true ->
+  prev_ok done -> libs_w done todo = true ->
+  emap (lib_sexp [] libs) todo = EmOk xs ->
+  loop body_step false (mkbst (map norm_lib done) st top) xs = Ok (mkbst (map norm_lib (done ++ todo)) st top).
+Proof.
+  induction todo as [|L todo IH]; intros done xs st top Hlibs Hui Hun Hprev Hw Hx.
+  - inversion Hx. now rewrite app_nil_r.
+  - cbn [emap] in Hx. destruct (lib_sexp [] libs L) as [x| |] eqn:El; try discriminate.
+    destruct (emap (lib_sexp [] libs) todo) as [xs'| |] eqn:Els; try discriminate. inversion Hx. subst xs.
+    cbn [libs_w] in Hw. apply andb_true_iff in Hw as [HwL Hws].
+    assert (Hui' := Hui). assert (Hun' := Hun). rewrite Hlibs, map_app in Hui', Hun'. cbn [map] in Hui', Hun'.
+    destruct (lib_w_roundtrip libs done L todo x Hlibs Hui Hprev HwL) as (args & -> & Hp); auto.
+    { exact (uniq_ci_mid _ _ _ Hui'). }
+    { exact (uniq_x_mid _ _ _ Hun'). }
+    unfold KW. cbn [loop]. unfold body_step at 1.
+    replace (kweq (lower (K "Library")) "status") with false by (vm_compute; reflexivity).
+    replace (kweq (lower (K "Library")) "library") with true by (vm_compute; reflexivity).
+    cbn [orb bs_libs bs_status bs_top]. rewrite Hp.
+    replace (map norm_lib done ++ [norm_lib L]) with (map norm_lib (done ++ [L])) by (now rewrite map_app).
+    replace (done ++ L :: todo) with ((done ++ [L]) ++ todo) by (now rewrite <- app_assoc).
+    apply IH; auto.
+    + now rewrite <- app_assoc.
+    + destruct Hprev as [P1 P2]. destruct (lib_w_ok _ _ HwL) as [Q1 Q2]. split.
+      * intros L' H'. apply in_app_or in H' as [H'|[<-|[]]]; auto.
+      * intros L' C H' HC. apply in_app_or in H' as [H'|[<-|[]]]; eauto.
+Qed.
+
+Lemma libs_w_ok : forall todo done, prev_ok done -> libs_w done todo = true -> prev_ok (done ++ todo).
+Proof.
+  induction todo as [|L todo IH]; intros done Hp Hw; [now rewrite app_nil_r|].
+  cbn [libs_w] in Hw. apply andb_true_iff in Hw as [HwL Hws].
+  replace (done ++ L :: todo) with ((done ++ [L]) ++ todo) by (now rewrite <- app_assoc).
+  apply IH; auto. destruct Hp as [P1 P2]. destruct (lib_w_ok _ _ HwL) as [Q1 Q2]. split.
+  - intros L' H'. apply in_app_or in H' as [H'|[<-|[]]]; auto.
+  - intros L' C H' HC. apply in_app_or in H' as [H'|[<-|[]]]; eauto.
+Qed.
+
+Lemma emap_atoms ts : forallb atom_ok ts = true -> emap atom_of ts = EmOk (map Atom ts).
+Proof.
+  induction ts as [|a ts IH]; intros H; [reflexivity|]. cbn [forallb] in H. apply andb_true_iff in H as [Ha Hs].
+  cbn [emap map]. unfold atom_of at 1. now rewrite Ha, (IH Hs).
+Qed.
+
+Lemma status_read ts prog st : params_w ts prog = true -> status_sexp ts prog = EmOk st ->
+  exists args, st = SList (KW "status" :: args) /\ chk_status args = Ok tt.
+Proof.
+  unfold params_w. intros Hp Hs. apply andb_true_iff in Hp as [Hp Hprog]. apply andb_true_iff in Hp as [Hlen Hts].
+  apply Nat.eqb_eq in Hlen.
+  assert (Hat : forallb atom_ok ts = true).
+  { apply forallb_forall. intros a Ha. rewrite forallb_forall in Hts. specialize (Hts a Ha).
+    apply andb_true_iff in Hts as [Hts _]. now apply andb_true_iff in Hts as [_ Hts]. }
+  assert (Hint : forallb is_int_atom (map Atom ts) = true).
+  { apply forallb_forall. intros x Hx. apply in_map_iff in Hx as (a & <- & Ha). rewrite forallb_forall in Hts.
+    specialize (Hts a Ha). apply andb_true_iff in Hts as [Hts _]. now apply andb_true_iff in Hts as [Hts _]. }
+  unfold status_sexp in Hs. rewrite (emap_atoms _ Hat) in Hs.
+  assert (Hcomment : str_tok_ok (K "Built by 'BYU spydrnet tool'") = true) by (vm_compute; reflexivity).
+  assert (Hts6 : chk_int_form "timestamp" 6 (SList (KW "timeStamp" :: map Atom ts)) = Ok tt).
+  { unfold chk_int_form. replace (is_kw "timestamp" (KW "timeStamp")) with true by (vm_compute; reflexivity).
+    rewrite map_length, Hlen, Hint. reflexivity. }
+  assert (Hc : forall s, written_step s (lower (K "comment")) [Str (K "Built by 'BYU spydrnet tool'")] = Ok s).
+  { intros s. unfold written_step.
+    replace (kweq (lower (K "comment")) "author") with false by (vm_compute; reflexivity).
+    replace (kweq (lower (K "comment")) "program") with false by (vm_compute; reflexivity).
+    replace (kweq (lower (K "comment")) "dataorigin") with false by (vm_compute; reflexivity).
+    replace (kweq (lower (K "comment")) "property") with false by (vm_compute; reflexivity).
+    replace (kweq (lower (K "comment")) "metax") with false by (vm_compute; reflexivity).
+    replace (kweq (lower (K "comment")) "comment") with true by (vm_compute; reflexivity).
+    cbn [orb]. unfold chk_comment. cbn [forallb is_str_ok]. now rewrite Hcomment. }
+  assert (Hst : forall wargs, chk_written wargs = Ok tt ->
+            chk_status [SList (KW "written" :: wargs)] = Ok tt).
+  { intros wargs Hw. unfold chk_status, KW. cbn [loop]. unfold status_step at 1.
+    replace (kweq (lower (K "written")) "written") with true by (vm_compute; reflexivity). now rewrite Hw. }
+  destruct prog as [[p v]|].
+  - unfold plain_str in Hs. destruct (str_ok p); [|discriminate].
+    apply andb_true_iff in Hprog as [Hp1 Hv1].
+    assert (Hprog_step : forall rest, written_step (false, false) (lower (K "program")) (Str p :: rest) =
+              match rest with
+              | [] => Ok (false, true)
+              | [SList [vk; Str s2]] => if str_tok_ok p && is_kw "version" vk && str_tok_ok s2 then Ok (false, true) else Err FeShape
+              | _ => Err FeShape
+              end).
+    { intros rest. unfold written_step.
+      replace (kweq (lower (K "program")) "author") with false by (vm_compute; reflexivity).
+      replace (kweq (lower (K "program")) "program") with true by (vm_compute; reflexivity).
+      cbn [snd fst]. destruct rest as [|[a|s|[|vk [|[a|s2|l2] [|z zs]]]] [|y ys]]; try reflexivity; now rewrite ?Hp1. }
+    destruct v as [v|].
+    + destruct (str_ok v); [|discriminate]. inversion Hs. subst st. eexists. split; [reflexivity|].
+      apply Hst. unfold chk_written. cbn [app]. rewrite Hts6. unfold KW at 1. cbn [loop].
+      rewrite Hprog_step. replace (is_kw "version" (KW "version")) with true by (vm_compute; reflexivity).
+      rewrite Hp1, Hv1. cbn [andb]. unfold KW. cbn [loop]. now rewrite Hc.
+    + inversion Hs. subst st. eexists. split; [reflexivity|].
+      apply Hst. unfold chk_written. cbn [app]. rewrite Hts6. unfold KW at 1. cbn [loop].
+      rewrite Hprog_step. unfold KW. cbn [loop]. now rewrite Hc.
+  - inversion Hs. subst st. eexists. split; [reflexivity|].
+    apply Hst. unfold chk_written. cbn [app]. rewrite Hts6. unfold KW. cbn [loop]. now rewrite Hc.
+Qed.
